@@ -99,11 +99,17 @@ func mwList(prefix string, n int) ([]string, []fox.MiddlewareFunc) {
 
 func replayMwVec(r *Run, v mwVec, rng *rand.Rand, concurrent bool, evals *atomic.Int64) {
 	var opts []fox.GlobalOption
+	var sharedOpt fox.Option // one option value used twice: as a global option and, below, as a route option
+	sharedID := ""
 	for i, si := range v.Sc {
 		kinds := mwScopeSets[si-1]
 		m := mwTracer(fmt.Sprintf("g%d", i+1))
 		if len(kinds) == 5 && rng.Intn(2) == 0 {
-			opts = append(opts, fox.WithMiddleware(m))
+			o := fox.WithMiddleware(m)
+			if sharedOpt == nil {
+				sharedOpt, sharedID = o, fmt.Sprintf("g%d", i+1)
+			}
+			opts = append(opts, o)
 		} else {
 			opts = append(opts, fox.WithMiddlewareFor(scopeMask(kinds), m))
 		}
@@ -124,7 +130,30 @@ func replayMwVec(r *Run, v mwVec, rng *rand.Rand, concurrent bool, evals *atomic
 		ropts = append(ropts, fox.WithMiddleware(rms...))
 	}
 	rt.MustHandle("GET", "/r", h, ropts...)
+	// the same route-specific middleware on a route served through an ignored trailing slash, and below a hostname
+	iopts := []fox.RouteOption{fox.WithIgnoreTrailingSlash(true)}
+	if len(rms) > 0 {
+		iopts = append(iopts, fox.WithMiddleware(rms...))
+	}
+	rt.MustHandle("GET", "/ri/", h, iopts...)
+	rt.MustHandle("GET", "mw.example/rh/{x}", h, iopts[1:]...)
+	if sharedOpt != nil {
+		rt.MustHandle("GET", "/shared", h, sharedOpt)
+	}
 	var inner [2]*mwLog
+	var innerShared *mwLog
+	rt.MustHandle("GET", "/call2", func(c fox.Context) {
+		target := c.Fox().Route("GET", "/shared")
+		if target == nil {
+			return
+		}
+		l := c.Request().Context().Value(mwLogKey{}).(*mwLog)
+		saved := *l
+		*l = mwLog{}
+		target.HandleMiddleware(c)
+		innerShared = &mwLog{enter: l.enter, exit: l.exit}
+		*l = saved
+	})
 	rt.MustHandle("GET", "/call", func(c fox.Context) {
 		target := c.Fox().Route("GET", "/r")
 		l := c.Request().Context().Value(mwLogKey{}).(*mwLog)
@@ -154,6 +183,22 @@ func replayMwVec(r *Run, v mwVec, rng *rand.Rand, concurrent bool, evals *atomic
 	reqs := [][3]string{{"route", "GET", "/r"}, {"noroute", "GET", "/nope"}, {"nomethod", "POST", "/r"}, {"redirect", "GET", "/r/"}, {"options", "OPTIONS", "/r"}}
 	for i, q := range reqs {
 		check(q[0], v.Chains[i], tracedRequest(rt, q[1], q[2]))
+	}
+	check("route (ignored trailing slash)", v.Chains[0], tracedRequest(rt, "GET", "/ri"))
+	{
+		req, _ := newRequest("GET", "mw.example", "/rh/1", "")
+		l := &mwLog{}
+		req = req.WithContext(contextWith(req.Context(), mwLogKey{}, l))
+		rt.ServeHTTP(newPlainWriter(), req)
+		check("route (hostname)", v.Chains[0], l)
+	}
+	if sharedOpt != nil {
+		globalPart := v.Chains[0][:len(v.Chains[0])-v.Nr]
+		check("route using an option value also used globally", append(slices.Clone(globalPart), sharedID), tracedRequest(rt, "GET", "/shared"))
+		tracedRequest(rt, "GET", "/call2")
+		if innerShared != nil {
+			check("Route.HandleMiddleware of that route", []string{sharedID}, innerShared)
+		}
 	}
 	tracedRequest(rt, "GET", "/call")
 	if inner[0] == nil {
